@@ -142,6 +142,11 @@ impl World {
         World { cat, seeds, tuning, inject }
     }
 
+    /// Catalogue only (probe workers: replay, shrinking, samples).
+    pub fn probe_only(tuning: Tuning) -> World {
+        World { cat: entries::catalogue(), seeds: vec![], tuning, inject: None }
+    }
+
     #[inline]
     fn call(&self, id: usize, input: &[u8], cheap: bool) -> entries::CallOut {
         if let Some((e, prefix)) = &self.inject {
@@ -359,8 +364,9 @@ impl World {
         r
     }
 
-    /// One in-process call (parent side: shrinking of panic witnesses, replay).
-    pub fn probe(&self, entry: usize, input: &[u8]) -> Res {
-        (self.cat[entry].call)(input, true).res
+    /// One call (worker side of a probe request; the parent never calls a
+    /// decoder on a faulted input in its own process).
+    pub fn probe(&self, entry: usize, input: &[u8], full_digest: bool) -> Res {
+        (self.cat[entry].call)(input, !full_digest).res
     }
 }
